@@ -896,13 +896,49 @@ def eliminate_self_aliases(fn) -> int:
     stores: Dict[str, List[ast.AST]] = {}
     attr_stores: List[Tuple[str, int]] = []
     nested_uses = set()
+    # position of every node in source order of the (possibly inlined) body: line numbers of inlined statements are those of the helper
+    seq: Dict[int, int] = {}
+
+    def number(stmts):
+        for st_ in stmts:
+            k_ = len(seq)
+            for x_ in ast.walk(st_):
+                seq.setdefault(id(x_), k_ if not isinstance(x_, ast.stmt) or x_ is st_ else seq.get(id(x_), k_))
+            seq[id(st_)] = k_
+            for fld_ in ("body", "orelse", "finalbody"):
+                sub = getattr(st_, fld_, None)
+                if isinstance(sub, list) and not isinstance(st_, (ast.FunctionDef, ast.AsyncFunctionDef, ast.ClassDef)):
+                    renumber(sub)
+            for h_ in getattr(st_, "handlers", []) or []:
+                renumber(h_.body)
+
+    counter = [0]
+
+    def renumber(stmts):
+        for st_ in stmts:
+            counter[0] += 1
+            k_ = counter[0]
+            for x_ in ast.walk(st_):
+                seq[id(x_)] = k_
+            for fld_ in ("body", "orelse", "finalbody"):
+                sub = getattr(st_, fld_, None)
+                if isinstance(sub, list) and not isinstance(st_, (ast.FunctionDef, ast.AsyncFunctionDef, ast.ClassDef)):
+                    renumber(sub)
+            for h_ in getattr(st_, "handlers", []) or []:
+                renumber(h_.body)
+    renumber(fn.body)
+    in_loop: Set[int] = set()
+    for lp_ in ast.walk(fn):
+        if isinstance(lp_, (ast.For, ast.While)):
+            for x_ in ast.walk(lp_):
+                in_loop.add(id(x_))
     for n in ast.walk(fn):
         if isinstance(n, ast.Name) and isinstance(n.ctx, (ast.Store, ast.Del)):
             stores.setdefault(n.id, []).append(n)
         elif isinstance(n, ast.Attribute) and isinstance(n.ctx, (ast.Store, ast.Del)):
             c = _attr_chain(n)
             if c:
-                attr_stores.append((c, getattr(n, "lineno", 0)))
+                attr_stores.append((c, seq.get(id(n), 0)))
         elif isinstance(n, (ast.FunctionDef, ast.AsyncFunctionDef, ast.Lambda)) and n is not fn:
             for x in ast.walk(n):
                 if isinstance(x, ast.Name):
@@ -916,8 +952,11 @@ def eliminate_self_aliases(fn) -> int:
             if isinstance(st, ast.Assign) and len(st.targets) == 1 and isinstance(st.targets[0], ast.Name) and _attr_chain(st.value):
                 nm = st.targets[0].id
                 chain = _attr_chain(st.value)
+                here = seq.get(id(st), 0)
+                # a store to the attribute that comes later in source order kills the alias; inside a loop an *earlier* store of the same
+                # iteration does not (the alias is re-made after it in every iteration) as long as it precedes the alias statement
                 if nm not in params and len(stores.get(nm, [])) == 1 and nm not in nested_uses and \
-                        not any((c == chain or chain.startswith(c + ".")) and ln >= st.lineno for c, ln in attr_stores):
+                        not any((c == chain or chain.startswith(c + ".")) and ln > here for c, ln in attr_stores):
                     cands[nm] = (st, st.value)
             for fld in ("body", "orelse", "finalbody"):
                 if isinstance(getattr(st, fld, None), list) and not isinstance(st, (ast.FunctionDef, ast.AsyncFunctionDef, ast.ClassDef)):
